@@ -9,7 +9,7 @@ import ZChain.Base.Coin
   `DelegateID`, as `LockPool` creates them), so `spUpdate.DelegateRewards` (a map keyed by `DelegateID`) is the
   list `Upd.dr` aligned with the pools (an absent key is `0`).
 * Every `currency` call is the checked `Coin.*` function; the **unchecked** Go operators are wrapping exactly
-  where the Go code has them: `valueLeft := value - serviceCharge` (`wrapSub`), `pools[i].Reward++` and
+  where the Go code has them: `valueLeft := value - serviceCharge` (`wrapSub`; since the charge is capped at `value` it can no longer wrap), `pools[i].Reward++` and
   `spUpdate.DelegateRewards[..]++` (`wrapAdd _ 1`), and the `totalRewards += p` of the deferred assertion.
 * floats are `F64` (exact binary64): `ServiceChargeRatio * float64(value)`, `float64(balance)/float64(stake)`,
   `MultFloat64(valueLeft, ratio)`.
@@ -122,8 +122,11 @@ inductive Pre where
   | done (sp : SP) (u : Option Upd)
   | go (sp : SP) (serviceCharge valueLeft : Nat)
 
-def serviceChargeOf (sp : SP) (value : Nat) : Except Err Nat :=
-  liftC (float64ToCoin (F64.mul sp.ratio (toFloat64 value)))
+/-- `serviceCharge := Float64ToCoin(ServiceChargeRatio * float64(value))`, then (repair 20328ad, stakepool.go:436/621)
+`if serviceCharge > value { serviceCharge = value }`: `float64(value)` may round up for `value ≥ 2^53`. -/
+def serviceChargeOf (sp : SP) (value : Nat) : Except Err Nat := do
+  let sc ← liftC (float64ToCoin (F64.mul sp.ratio (toFloat64 value)))
+  .ok (if value < sc then value else sc)
 
 def prefixPart (sp : SP) (value : Nat) : Except Err Pre := do
   let total ← stakeOf sp.pools
